@@ -171,3 +171,11 @@ Definition judge_doc (cs : cstate) (uri : Z) (obs : option (text * Z * option te
     A history that does not follow LSP only has to leave the server running. *)
 Definition judge (cs : cstate) (conforming panicked : bool) (obs : list (Z * option (text * Z * option text))) : bool :=
   negb panicked && (negb conforming || forallb (fun p => judge_doc cs (fst p) (snd p)) obs).
+
+(** a byte index (into the server's UTF-8 string [d]) claimed for position (l, c) is right when it is a char
+    boundary and the prefix before it has the position's UTF-16 offset *)
+Definition judge_pos (d : text) (l c idx : Z) : bool :=
+  match split_at_byte d idx with
+  | Some (a, _) => Nat.eqb (length (to_utf16 a)) (offset_of (to_utf16 d) l c)
+  | None => false
+  end.
